@@ -4,6 +4,7 @@ import math
 from . import lib, simutil
 from amaranth.hdl import Value
 from amaranth.sim import Simulator
+from amaranth.lib import wiring
 from amaranth_soc import csr, wishbone
 from amaranth_soc.memory import MemoryMap
 
@@ -66,6 +67,12 @@ def _dup_after(rnd2, dec, stats, mk_iface, mmap, **kw):
 def run_csr(case):
     rnd = lib.rng_for(case["seed"], case["idx"], 606)
     rnd2 = lib.rng_for(case["seed"], case["idx"], 616)      # history variations, own stream
+    us = lib.rng_for(case["seed"], case["idx"], 626)        # usage style, own stream
+
+    def how_given(b):
+        # a subordinate may be handed over as the interface object or as its flipped view (a component's `In` port,
+        # `flipped(iface)`): add() accepts both, and the decoder drives/reads the same signals either way
+        return wiring.flipped(b) if us.random() < .3 else b
     aw = rnd.randint(2, 8)
     dw = rnd.choice([8, 16, 32])
     al = rnd.choice([0, 0, 1, 2, 3])
@@ -83,15 +90,15 @@ def run_csr(case):
         try:
             how = rnd.random()
             if how < .5:
-                dec.add(sb, name=None if rnd.random() < .5 else f"s{i}")
+                dec.add(how_given(sb), name=None if rnd.random() < .5 else f"s{i}")
             elif how < .85:
                 unit = max(saw, al)
                 addr = (rnd.randrange(1 << aw) >> unit) << unit
-                dec.add(sb, name=f"s{i}", addr=addr)
+                dec.add(how_given(sb), name=f"s{i}", addr=addr)
                 stats["explicit"] += 1
             else:
                 dec.align_to(rnd.randint(0, 4))
-                dec.add(sb, name=f"s{i}")
+                dec.add(how_given(sb), name=f"s{i}")
             subs.append(sb)
             _dup_after(rnd2, dec, stats, lambda: csr.Interface(addr_width=saw, data_width=dw, path=(f"dup{i}",)), sb.memory_map)
         except ValueError:
@@ -156,6 +163,10 @@ def run_csr(case):
 def run_wb(case):
     rnd = lib.rng_for(case["seed"], case["idx"], 707)
     rnd2 = lib.rng_for(case["seed"], case["idx"], 717)      # history variations, own stream
+    us = lib.rng_for(case["seed"], case["idx"], 727)        # usage style, own stream
+
+    def how_given(b):
+        return wiring.flipped(b) if us.random() < .3 else b
     dw = rnd.choice([8, 16, 32, 64])
     gran = rnd.choice([g for g in (8, 16, 32, 64) if g <= dw])
     gb = int(math.log2(dw // gran))
@@ -198,10 +209,10 @@ def run_wb(case):
                  sb.memory_map, 1 << maw_dec, ghosts=ghosts, mk_map=lambda: MemoryMap(addr_width=maw, data_width=sg), sparse=sparse)
         try:
             if rnd.random() < .6:
-                dec.add(sb, sparse=sparse, name=None if rnd.random() < .5 else f"s{i}")
+                dec.add(how_given(sb), sparse=sparse, name=None if rnd.random() < .5 else f"s{i}")
             else:
                 unit = max(maw, al)
-                dec.add(sb, sparse=sparse, name=f"s{i}", addr=(rnd.randrange(1 << maw_dec) >> unit) << unit)
+                dec.add(how_given(sb), sparse=sparse, name=f"s{i}", addr=(rnd.randrange(1 << maw_dec) >> unit) << unit)
                 stats["explicit"] += 1
             subs.append((sb, sparse, sf, maw))
             if small and rnd2.random() < .7:
@@ -209,7 +220,7 @@ def run_wb(case):
                 sb2 = wishbone.Interface(addr_width=saw, data_width=sdw, granularity=sg, features=spelled(sf), path=(f"sub{i}b",))
                 sb2.memory_map = MemoryMap(addr_width=maw, data_width=sg)
                 try:
-                    dec.add(sb2, sparse=True, name=f"s{i}b")
+                    dec.add(how_given(sb2), sparse=True, name=f"s{i}b")
                     subs.append((sb2, True, sf, maw))
                     stats["sparse"] += 1
                 except ValueError:
@@ -373,7 +384,10 @@ def run_treeflat(case):
         return mux.bus
 
     def mk_dec(a, depth):
-        dec = csr.Decoder(addr_width=a, data_width=dw, alignment=rnd.choice([0, 0, 1]))
+        dal = rnd.choice([0, 0, 1])
+        if rnd2.random() < .25:
+            dal = min(rnd2.choice([2, 3]), a - 1)       # windows wider than the subordinate behind them: padding addresses
+        dec = csr.Decoder(addr_width=a, data_width=dw, alignment=dal)
         for i in range(rnd.randint(2, 3)):
             sub = mk_dec(a - 1, depth - 1) if depth > 0 and a > 3 and rnd.random() < .3 else mk_mux(a - 1)
             try:
@@ -392,6 +406,15 @@ def run_treeflat(case):
     infos = list(tbus.memory_map.all_resources())
     if not infos:
         return {"skip": True}
+    pre_fails = []
+    for a_ in range(1 << aw):
+        d_ = tbus.memory_map.decode_address(a_)
+        own = [i for i in infos if i.start <= a_ < i.end]
+        if (d_ is None) != (not own) or (own and d_ is not own[0].resource):
+            pre_fails.append(("C06", f"the decoder's memory map decodes address {a_} to {'nothing' if d_ is None else 'a register'} but its "
+                                     f"all_resources() lists {'nothing' if not own else 'a register at %d..%d' % (own[0].start, own[0].end)} there "
+                                     f"(padding of a window wider than its subordinate?)", a_))
+            break
     # the flat twin
     fmm = MemoryMap(addr_width=aw, data_width=dw)
     twins = []
@@ -405,7 +428,7 @@ def run_treeflat(case):
     d = Signal(name="verif_dummy"); top.d.sync += d.eq(~d)
     sim = simutil.simulator(top, case)
     sim.add_clock(1e-6)
-    fails = []
+    fails = list(pre_fails)
     stats = {"cycles": 0, "registers": len(infos), "txn_done": 0, "same_low_bits_other_window": 0}
 
     async def tb(ctx):
